@@ -23,6 +23,8 @@ pub struct Loc {
     pub in_tuple: bool,
     /// statement plant (or whole expression statement) that is the last statement of a block without value
     pub last_in_block: bool,
+    /// some enclosing block (below the innermost function) is a branch of an `if` that has no `else`
+    pub in_elseless_if: bool,
 }
 
 pub enum Action {
@@ -42,6 +44,7 @@ struct Cx {
     in_loop: bool,
     global: VarId,
     global_is_fn: bool,
+    elseless: bool,
 }
 
 struct St<'a> {
@@ -71,6 +74,7 @@ impl Cx {
             value_unused,
             in_tuple,
             last_in_block: last,
+            in_elseless_if: self.elseless,
         }
     }
 }
@@ -144,6 +148,7 @@ fn function(def: &mut FnDef, cx: Cx, class: &'static str, st: &mut St) {
     n.cdepth += 1;
     n.pure_ = cx.pure_ || def.pure;
     n.in_loop = false;
+    n.elseless = false;
     block(&mut def.body, n, st);
 }
 
@@ -173,12 +178,18 @@ fn expr(x: &mut Expr, cx: Cx, st: &mut St, stmt_top: bool, in_tuple: bool, last:
             expr(a, op, st, false, false, false)
         }
         EKind::If(bs, d) => {
+            let no_else = d.is_none();
             for (c, b) in bs.iter_mut() {
-                expr(c, cx.with("condition"), st, false, false, false);
+                // (the conditions belong to the `if` as well: their `ret`s are merged with the branches')
+                let mut cc = cx.with("condition");
+                cc.elseless = cx.elseless || no_else;
+                expr(c, cc, st, false, false, false);
                 if st.found.is_some() {
                     return;
                 }
-                block(b, cx.nested("branch"), st);
+                let mut n = cx.nested("branch");
+                n.elseless = cx.elseless || no_else;
+                block(b, n, st);
                 if st.found.is_some() {
                     return;
                 }
@@ -259,6 +270,7 @@ pub fn apply(p: &mut Program, text: &str, is_expr: bool, action: Action) -> Opti
                 in_loop: false,
                 global: var,
                 global_is_fn: true,
+                elseless: false,
             };
             block(&mut def.body, cx, &mut st);
         } else {
@@ -271,6 +283,7 @@ pub fn apply(p: &mut Program, text: &str, is_expr: bool, action: Action) -> Opti
                 in_loop: false,
                 global: var,
                 global_is_fn: false,
+                elseless: false,
             };
             expr(&mut g.value, cx, &mut st, false, false, false);
         }
